@@ -3,7 +3,7 @@
   on byte-string keys and prints model output, spec verdict and known-finding triggers per line.
 -/
 import Nervus.Driver.Util
-import Nervus.Model.BTree
+import Nervus.Model.BTreeReal
 namespace Nervus.Driver.BTreeStream
 open Nervus Nervus.BTree Nervus.Driver
 
